@@ -2,7 +2,7 @@
    Only statements, closed by lemmas of Proofs/FindContent.v (and C15's framing round trip), each followed by Print Assumptions.
    [srt] is sort.Slice by log distance to the content id: any sorted permutation ([is_sort]). *)
 From Shisui Require Import Base.Bytes Gen.K_wire Gen.K_table Gen.K_handlers Model.Handlers Model.Framing
-     Proofs.Handlers Proofs.Gossip Proofs.Framing Proofs.FindContent.
+     Model.Versions Proofs.Handlers Proofs.Gossip Proofs.Framing Proofs.FindContent.
 
 (* every reply (inline bytes, connection id, records) fits one discv5 packet, for request ids of at most 8 bytes *)
 Theorem C08_reply_fits_one_packet : forall nodelist srt requester st r reqid s1 s2,
@@ -46,6 +46,14 @@ Print Assumptions C08_connid_accepted.
 Theorem C08_stream_roundtrip : forall v d, short d -> decode_utp_content v (encode_utp_content v d) = Ok d.
 Proof. exact utp_roundtrip. Qed.
 Print Assumptions C08_stream_roundtrip.
+
+(* a legacy peer (no pv entry in its record) is served and read in version 0 by any node whose version list starts with 0:
+   stored bytes go onto the stream, and come off it, unframed *)
+Theorem C08_legacy_peer_unframed : forall rest (c : vcache) node d,
+  c node = None ->
+  node_encode_utp (0 :: rest) c node PvMissing d = Ok d /\ node_decode_utp (0 :: rest) c node PvMissing d = Ok d.
+Proof. exact legacy_peer_unframed. Qed.
+Print Assumptions C08_legacy_peer_unframed.
 
 (* FULL STATEMENT of the multi-packet clause (NOT proved as a whole):
      for content above the threshold, the bytes the asker's findContent returns equal the stored bytes, for either
